@@ -87,7 +87,7 @@ let pr_schema tag qid (s : (n list * n list list) list) =
   List.iter (fun (c, vs) -> pr_str c; pr " %d" (List.length vs); List.iter pr_str vs) s;
   pr "\n"
 
-let writer_of = function "mem" | "memdb" -> WMem | "big" -> WBig | w -> failwith ("writer " ^ w)
+let writer_of = function "mem" | "memdb" | "mem2" -> WMem | "big" -> WBig | w -> failwith ("writer " ^ w)
 
 let dp (lines : string list) =
   let datasets : (string, (n list * n list) list list) Hashtbl.t = Hashtbl.create 16 in
